@@ -302,6 +302,40 @@ def parseAllRows (content : Bytes) : M (List Row) := do
 /-- the first line of a file (`strings.Split` always yields a first piece). -/
 def firstLine (content : Bytes) : Bytes := (split 10 content).headD []
 
+/-! ### a row by CONTENT (what a reader of the data sees), against the loader's accept rule (exactly two ' '-fields) -/
+
+def isBlank (c : Nat) : Bool := c == 32 || c == 9 || c == 13
+
+/-- the non-empty pieces between blanks (tail recursive). -/
+def fieldsAux : Bytes → Bytes → List Bytes → List Bytes
+  | [], cur, acc => (if cur.isEmpty then acc else cur.reverse :: acc).reverse
+  | c :: cs, cur, acc =>
+    if isBlank c then fieldsAux cs [] (if cur.isEmpty then acc else cur.reverse :: acc)
+    else fieldsAux cs (c :: cur) acc
+
+def fields (s : Bytes) : List Bytes := fieldsAux s [] []
+
+/-- `0xHHHH` → the value. -/
+def hexField : Bytes → Option Nat
+  | [48, 120, a, b, c, d] => do
+    let w ← hexVal a; let x ← hexVal b; let y ← hexVal c; let z ← hexVal d
+    pure (w * 4096 + x * 256 + y * 16 + z)
+  | _ => none
+
+/-- a line is a row by content when its first two fields are `0xHHHH 0xHHHH`, whatever follows (a comment, blanks). -/
+def rowByContent (line : Bytes) : Option Row :=
+  match fields line with
+  | f0 :: f1 :: _ => do
+    let k ← hexField f0
+    let cp ← hexField f1
+    pure ([k / 256, k % 256], cp)
+  | _ => none
+
+/-- rows by content that the loader's rule skips (`continue`) — they are silently missing from the map. -/
+def droppedRows (content : Bytes) : Nat :=
+  ((split 10 content).filter fun line =>
+    (rowByContent line).isSome && (match parseLine line with | .ok none => true | _ => false)).length
+
 /-! ### the start-up sequence initgin.InitAllConfig
 
 The packages' `InitConfig()` calls in the order of the source (`Gen.Big5.initOrder`).  `types` loads the tables
